@@ -201,6 +201,17 @@ def checkDirectives (g : List GProd) (d : ParserDesc) (tr : List (List (Nat × T
       | none => some s!"skip[{s}]:primary-non-terminal-without-terminal"
       | some exs => chk (dedupSorted (sortBy (· ≤ ·) exs) == l) s!"skip[{s}]"))
 
+/-- The same comparison against GIVEN token numbers (what `to_grammar_config.rs` resolved on the
+    untransformed grammar): used to attribute a failure of `checkDirectives` to finding F26. -/
+def checkDirectivesGiven (d : ParserDesc) (tr : List (List DTrans)) (sk : List (List Nat)) : Option String :=
+  if tr.length ≠ d.modes.length then some "transition-list-count" else
+  if sk.length ≠ d.skips.length then some "skip-list-count" else
+  firstSome (
+    ((tr.zip d.modes).zipIdx.map fun ((exs, m), s) =>
+      chk (sortBy keyLe (exs.map trKey) == sortBy keyLe (m.trans.map trKey)) s!"mode[{s}].transitions") ++
+    ((sk.zip d.skips).zipIdx.map fun ((exs, l), s) =>
+      chk (dedupSorted (sortBy (· ≤ ·) exs) == l) s!"skip[{s}]"))
+
 def modePos (m : DMode) (ty : Nat) : Option Nat := m.toks.findIdx? (·.ty == ty)
 
 /-- 6. what the generated scanner does with a plain terminal's own text -/
@@ -280,6 +291,12 @@ def termIdxCheck (occs qs : List TOcc) (nOrdered : Nat) (idx : List (Option Nat)
       | some x, some y => chk ((x == y) == sameTerm a b) "same-number-iff-same-behaviour-violated"
       | _, _ => none))
 
+/-- `tidCheck` with the directive check replaced by the comparison against the stale numbers. -/
+def tidCheckStale (g : List GProd) (tr : List (List DTrans)) (sk : List (List Nat))
+    (fs : List ScanFact) (ss : List (List (Nat × Nat))) (d : ParserDesc) : Option String :=
+  firstSome [checkProds g d, checkModes g d, checkDirectivesGiven d tr sk, checkScan g d fs,
+    checkShifts g d, checkSentences g d ss]
+
 def listOfT {α : Type} (sep : String) (f : String → Option α) (s : String) : Option (List α) :=
   if s == "~" then some [] else (s.splitOn sep).mapM f
 
@@ -300,23 +317,33 @@ def Tbl.handleTermIdxCheck : List String → Option String
   | _ => none
 
 /-- the five grammar-side words and three descriptions of a `tid` case -/
-def Tbl.parseTid (ws : List String) :
-    Option (List GProd × List (List (Nat × TrKind × Nat)) × List (List Nat) × List ScanFact ×
-      List (List (Nat × Nat)) × List ParserDesc) :=
+structure TidCase where
+  g : List GProd
+  tr : List (List (Nat × TrKind × Nat))
+  sk : List (List Nat)
+  trStale : List (List DTrans)
+  skStale : List (List Nat)
+  fs : List ScanFact
+  ss : List (List (Nat × Nat))
+  descs : List ParserDesc
+
+def Tbl.parseTid (ws : List String) : Option TidCase :=
   match ws with
-  | g :: tr :: sk :: fs :: ss :: dw => do
+  | g :: tr :: sk :: tro :: sko :: fs :: ss :: dw => do
     let g ← listOf ";" parseGProd g
     let tr ← listOfT ";" (listOf "+" parseDirective) tr
     let sk ← listOfT ";" Proto.parseNats sk
+    let tro ← listOfT ";" (listOf "+" parseDTrans) tro
+    let sko ← listOfT ";" Proto.parseNats sko
     let fs ← listOf ";" parseScanFact fs
     let ss ← listOfT ";" (listOf "," parsePos) ss
     let (ds, rest) ← takeDescs 3 dw
-    if rest.isEmpty then some (g, tr, sk, fs, ss, ds) else none
+    if rest.isEmpty then some ⟨g, tr, sk, tro, sko, fs, ss, ds⟩ else none
   | _ => none
 
 -- @handler tid Tbl.handleTid
-/-- Differential slot of a `tid` case (`tid <par> <k> <grammar> <directives> <skips> <scan-facts>
-    <sentences> <A> <M> <S>`): the model reads everything; the harness answers `same` when it
+/-- Differential slot of a `tid` case (`tid <par> <k> <grammar> <directives> <skips>
+    <stale-directives> <stale-skips> <scan-facts> <sentences> <A> <M> <S>`): the model reads everything; the harness answers `same` when it
     reproduces the line from the grammar text. -/
 def Tbl.handleTid : List String → Option String
   | _ :: _ :: ws => (Tbl.parseTid ws).map fun _ => "same"
@@ -327,17 +354,32 @@ def Tbl.handleTid : List String → Option String
     from the source text, the export model and the analysis objects. -/
 def Tbl.handleTidCheck3 : List String → Option String
   | _ :: _ :: ws => do
-    let (g, tr, sk, fs, ss, ds) ← Tbl.parseTid ws
-    match ds with
+    let c ← Tbl.parseTid ws
+    match c.descs with
     | [a, m, s] =>
       let tag (t : String) (r : Option String) : Option String := r.map fun x => t ++ ":" ++ x
-      some (verdict (firstSome [tag "S" (tidCheck g tr sk fs ss s), tag "M" (tidCheck g tr sk fs ss m),
-        tag "A" (tidCheck g tr sk fs ss a)]))
+      let f := tidCheck c.g c.tr c.sk c.fs c.ss
+      some (verdict (firstSome [tag "S" (f s), tag "M" (f m), tag "A" (f a)]))
+    | _ => none
+  | _ => none
+
+-- @handler tid-stale Tbl.handleTidStale
+/-- Attribution to finding F26: `ok` iff every description passes `tidCheck` once the `%on` / `%skip`
+    expectation is replaced by the numbers resolved on the UNTRANSFORMED grammar (the generated lists
+    are exactly the stale numbers, and nothing else is wrong). -/
+def Tbl.handleTidStale : List String → Option String
+  | _ :: _ :: ws => do
+    let c ← Tbl.parseTid ws
+    match c.descs with
+    | [a, m, s] =>
+      let tag (t : String) (r : Option String) : Option String := r.map fun x => t ++ ":" ++ x
+      let f := tidCheckStale c.g c.trStale c.skStale c.fs c.ss
+      some (verdict (firstSome [tag "S" (f s), tag "M" (f m), tag "A" (f a)]))
     | _ => none
   | _ => none
 
 -- @handler tid-check Tbl.handleTidCheck
-/-- `tid-check <grammar> <directives> <skips> <scan-facts> <sentences> <desc (11 words)>`
+/-- `tid-check <grammar> <directives> <skips> <scan-facts> <sentences> <desc (11 words)>` (one description)
     * grammar     `lhs:push:sym+sym;…`, sym = `n<i>` | `t/text/kind/states/lasign/lakind/latext/xtext/xla`
     * directives  per scanner state `;`-separated: `-` | `prod:e:mode+prod:u:mode+prod:o`; no state: `~`
     * skips       per scanner state `;`-separated: `-` | `prod,prod`; no state: `~`
